@@ -104,6 +104,43 @@ Example C09_example_time :
   /\ spec_okb {| hist := h |} (model {| hist := OStartRun :: tl (tl h) |}) = false.
 Proof. vm_compute. repeat split. Qed.
 
+(* tags() before the run is started (wf accepts it): any tags() calls, then a startTest that starts the run
+   itself - they are run-level tags: the test's final status carries what those calls leave (tags_after: through
+   the converter's TagContext; tags_wanted: added then removed, call by call, read off the history; the same
+   set), and the statement demands it; tags() calls, then an explicit startTestRun - reset: no tags *)
+Theorem C09_tags_before_start : forall chs i h,
+  (exists rest, mid_stream (tags_ops chs ++ OStartTest i :: OOutcome AddSuccess i None None :: h)
+                = MStartRun :: status_ev i Inprogress None (Some wall)
+                  :: status_ev i Success (Some (tags_after chs [])) (Some wall) :: rest)
+  /\ (exists xs, fst (expected ss0 (tags_ops chs ++ OStartTest i :: OOutcome AddSuccess i None None :: h))
+                 = XStartRun :: XStatus i Inprogress None wall
+                   :: XStatus i Success (Some (tags_wanted chs [])) wall :: xs)
+  /\ (forall x, In x (tags_after chs []) <-> In x (tags_wanted chs []))
+  /\ (exists rest, mid_stream (tags_ops chs ++ OStartRun :: OStartTest i :: OOutcome AddSuccess i None None :: h)
+                   = MStartRun :: status_ev i Inprogress None (Some wall)
+                     :: status_ev i Success (Some []) (Some wall) :: rest)
+  /\ (exists xs, fst (expected ss0 (tags_ops chs ++ OStartRun :: OStartTest i :: OOutcome AddSuccess i None None :: h))
+                 = XStartRun :: XStatus i Inprogress None wall :: XStatus i Success (Some []) wall :: xs).
+Proof. exact tags_before_start. Qed.
+Print Assumptions C09_tags_before_start.
+
+(* non-vacuity of it: tags 1,2 added, 3 added and 1 removed before the implicit start; a test-local change in
+   the first test; the second test sees the run-level tags again; with an explicit startTestRun they are gone *)
+Example C09_example_tags :
+  let h := [OTags [1; 2] []; OTime 5; OTags [3] [1]; OStartTest 1; OTags [4] [2]; OOutcome AddSuccess 1 None None;
+            OStopTest 1; OStartTest 2; OOutcome AddSuccess 2 None None; OStopTest 2; OStopRun] in
+  let h' := [OTags [1] []; OStartRun; OStartTest 1; OOutcome AddSuccess 1 None None; OStopTest 1] in
+  wf_from PNot h = true /\ wf_from PNot h' = true
+  /\ norm_log (final_log h)
+     = [LStartRun; LTime 5; LStartTest 1; LTime 5; LOutcome AddSuccess 1 [3; 4] []; LStopTest 1;
+        LTime 5; LStartTest 2; LTime 5; LOutcome AddSuccess 2 [2; 3] []; LStopTest 2; LStopRun]
+  /\ norm_log (final_log h')
+     = [LStartRun; LTime 0; LStartTest 1; LTime 0; LOutcome AddSuccess 1 [] []; LStopTest 1]
+  /\ spec_okb {| hist := h |} (model {| hist := h |}) = true
+  (* losing the tags at the implicit start is rejected by the statement *)
+  /\ spec_okb {| hist := h |} (model {| hist := OStartRun :: OTime 5 :: skipn 3 h |}) = false.
+Proof. vm_compute. repeat split. Qed.
+
 (* non-vacuity: run-level and test-level tags, a supplied time, a failure with a two-chunk text detail, an
    empty detail and a parameterised binary one, then a skip with a reason *)
 Example C09_example :
